@@ -13,6 +13,7 @@ import Driver.C06
 import Driver.C12
 import Driver.C20
 import Driver.C08
+import Driver.C03
 import Driver.C16
 import Driver.C17
 /-! Line-protocol driver: one op per line on stdin (`<Cxx> <op> <args…>`), one answer per line. -/
@@ -35,6 +36,7 @@ def dispatch (line : String) : String :=
   | "C12" :: rest => Driver.C12.handle rest
   | "C20" :: rest => Driver.C20.handle rest
   | "C08" :: rest => Driver.C08.handle rest
+  | "C03" :: rest => Driver.C03.handle rest
   | "C16" :: rest => Driver.C16.handle rest
   | "C17" :: rest => Driver.C17.handle rest
   | _ => "bad-op"
